@@ -14,11 +14,17 @@ Section C05.
     numpy_run TestId Kw test cfg tbl = spec_run TestId Kw test cfg tbl.
   Proof. exact (numpy_run_spec TestId Kw test). Qed.
 
-  (* PandasStream: any row index with unique labels (default, offset, reversed, arbitrary) *)
+  (* PandasStream: ANY row index (default, offset, reversed, arbitrary, repeated labels).  Before the repair of
+     F23 this needed `NoDup (t_index tbl)`: the hypothesis the proof forced was the defect (refuted below) *)
   Theorem C05_pandas : forall cfg tbl,
-    wf_table tbl -> NoDup (t_index tbl) ->
     pandas_run TestId Kw test cfg tbl = spec_run TestId Kw test cfg tbl.
   Proof. exact (pandas_run_spec TestId Kw test). Qed.
+
+  (* the label-based row mask of the code before the repair (F23) marks every row that shares a label
+     with a selected row *)
+  Theorem C05_pandas_label_mask_refuted :
+    exists tbl m, length m = length (t_index tbl) /\ pandas_mask_by_label tbl m <> m.
+  Proof. exact pandas_mask_by_label_refuted. Qed.
 
   (* XarrayStream: under the hypothesis the proof forces (both bounds or none, no row exactly at
      `ending`); outside it the label slice is end-inclusive and half-open windows are ignored:
@@ -29,7 +35,7 @@ Section C05.
   Proof. exact (xarray_run_spec TestId Kw test). Qed.
 
   Theorem C05_agree : forall cfg tbl,
-    wf_table tbl -> NoDup (t_index tbl) -> Forall (xarray_ok TestId Kw tbl) cfg ->
+    Forall (xarray_ok TestId Kw tbl) cfg ->
     pandas_run TestId Kw test cfg tbl = numpy_run TestId Kw test cfg tbl /\
     xarray_run TestId Kw test cfg tbl = numpy_run TestId Kw test cfg tbl.
   Proof. exact (front_ends_agree TestId Kw test). Qed.
@@ -51,6 +57,7 @@ End C05.
 
 Print Assumptions C05_numpy.
 Print Assumptions C05_pandas.
+Print Assumptions C05_pandas_label_mask_refuted.
 Print Assumptions C05_xarray_partial.
 Print Assumptions C05_agree.
 Print Assumptions C05_window.
